@@ -359,7 +359,7 @@ where
         if let Some((line_num, pos, byte)) = self.first_byte()? {
             if byte == b'>' {
                 self.buf_pos.start = pos;
-                self.position.byte = pos as u64;
+                self.position.byte += pos as u64;
                 self.position.line = line_num as u64;
                 self.search_pos = pos + 1;
                 return Ok(true);
@@ -390,8 +390,13 @@ where
                 last_line_len = line.len();
             }
             // If an orphan '\r' is found at the end of the buffer,
-            // we need to move it to the start and re-search the line
-            self.buf_reader.consume(pos - 1 - last_line_len);
+            // we need to move it to the start and re-search the line.
+            // The last (possibly incomplete) line stays in the buffer and
+            // will be counted again; the consumed bytes are remembered.
+            line_num -= 1;
+            let consumed = pos - 1 - last_line_len;
+            self.position.byte += consumed as u64;
+            self.buf_reader.consume(consumed);
             self.buf_reader.make_room();
         }
         Ok(None)
